@@ -103,7 +103,8 @@ fn dummy_hmac_input() -> HmacGetSecretInput {
 }
 
 /// `tys`: optional parallel list, false = a descriptor whose `type` is not "public-key" (deserialises to Unknown)
-fn descriptors_ty(v: &Value, tys: &Value) -> Option<Vec<webauthn::PublicKeyCredentialDescriptor>> {
+// optional parallel lists: `tys` (false = a `type` other than "public-key"), `trs` (the descriptor's transports hint as JSON strings)
+fn descriptors_ty(v: &Value, tys: &Value, trs: &Value) -> Option<Vec<webauthn::PublicKeyCredentialDescriptor>> {
     v.as_array().map(|l| {
         l.iter()
             .enumerate()
@@ -114,7 +115,7 @@ fn descriptors_ty(v: &Value, tys: &Value) -> Option<Vec<webauthn::PublicKeyCrede
                     webauthn::PublicKeyCredentialType::Unknown
                 },
                 id: unhex(id.as_str().unwrap()).into(),
-                transports: None,
+                transports: serde_json::from_value(trs[i].clone()).unwrap_or(None),
             })
             .collect()
     })
@@ -149,7 +150,7 @@ fn mc_request(q: &Value) -> make_credential::Request {
                 alg: iana::Algorithm::from_i64(a.as_i64().unwrap()).expect("known algorithm id"),
             })
             .collect(),
-        exclude_list: descriptors_ty(&q["exclude"], &q["exclude_ty"]),
+        exclude_list: descriptors_ty(&q["exclude"], &q["exclude_ty"], &q["exclude_tr"]),
         extensions: if q["ext"].is_null() {
             None
         } else {
@@ -170,7 +171,7 @@ fn ga_request(q: &Value) -> get_assertion::Request {
     get_assertion::Request {
         rp_id: utf8(&q["rp_id"]),
         client_data_hash: unhex(q["cdh"].as_str().unwrap()).into(),
-        allow_list: descriptors_ty(&q["allow"], &q["allow_ty"]),
+        allow_list: descriptors_ty(&q["allow"], &q["allow_ty"], &q["allow_tr"]),
         extensions: if q["ext"].is_null() {
             None
         } else {
@@ -341,7 +342,7 @@ fn creation_options(q: &Value) -> webauthn::CredentialCreationOptions {
             // members the client does not act on ("timeout", "hints", "attestation", "attestationFormats", the selection's
             // "attachment"): given as the JSON a relying party would send, absent when the scenario does not name them
             timeout: q["timeout"].as_u64().map(|t| t as u32),
-            exclude_credentials: descriptors_ty(&q["exclude"], &q["exclude_ty"]),
+            exclude_credentials: descriptors_ty(&q["exclude"], &q["exclude_ty"], &q["exclude_tr"]),
             authenticator_selection: if q["selection"].is_null() { None } else {
                 let s = &q["selection"];
                 Some(webauthn::AuthenticatorSelectionCriteria {
@@ -370,7 +371,7 @@ fn request_options(q: &Value) -> webauthn::CredentialRequestOptions {
             challenge: unhex(q["challenge"].as_str().unwrap()).into(),
             timeout: q["timeout"].as_u64().map(|t| t as u32),
             rp_id: if q["rp_id"].is_null() { None } else { Some(utf8(&q["rp_id"])) },
-            allow_credentials: descriptors_ty(&q["allow"], &q["allow_ty"]),
+            allow_credentials: descriptors_ty(&q["allow"], &q["allow_ty"], &q["allow_tr"]),
             user_verification: uv_req(&q["uv"]),
             hints: serde_json::from_value(q["hints"].clone()).unwrap_or(None),
             attestation: serde_json::from_value(q["attestation"].clone()).unwrap_or_default(),
@@ -476,6 +477,7 @@ fn client_mode(case: &Value) -> Value {
         }
     }
     let store = AnyStore::from_json(&case["store"]);
+    sh.lock().unwrap().prompt_store = store.share();
     let auth = build_auth(&case["config"], store, &case["user"], sh.clone(), None);
     let mut outs = Vec::new();
     // `allows_insecure_localhost` is a property of the client: one client per distinct setting
@@ -512,6 +514,7 @@ fn sequential(case: &Value) -> Value {
         s.yield_before_calls = case["yield"].as_bool().unwrap_or(false);
     }
     let store = AnyStore::from_json(&case["store"]);
+    sh.lock().unwrap().prompt_store = store.share();
     let mut auth = build_auth(&case["config"], store, &case["user"], sh.clone(), None);
     let mut outs = Vec::new();
     for op in case["ops"].as_array().unwrap() {
